@@ -16,7 +16,9 @@ RULE = ('Hypothesis draws a model class (UNIFAC, Dortmund, NIST with groups assi
         'bit-identical after Gamma(x,T) and Gamma.f(x,T,*args); f(...) == Gamma(...) exactly and == '
         'activity_coefficients(x_sub) to 1e-12; gamma_i -> 1 as x_i -> 1; Gibbs-Duhem by central differences along a '
         'random multiplicative direction; permutation equivariance; group-less members exactly 1; ideal '
-        'Gamma/Phi/PCF exactly 1. Non-trivial: >=2 group-bearing chemicals with 0<x<1 (for Gibbs-Duhem additionally '
+        'Gamma/Phi/PCF exactly 1. In two thirds of the cases the same model object is first evaluated at another drawn '
+        'temperature and the equimolar composition (warm-up); after every judged evaluation the returned array is '
+        'modified in place and the evaluation repeated (results must not alias internal state). Non-trivial: >=2 group-bearing chemicals with 0<x<1 (for Gibbs-Duhem additionally '
         'gamma actually changed). Distinct by (check, class, chemical tuple, composition pattern, drawn index).')
 ASSUMPTIONS = [
     'NIST groups are assigned by name as in the NISTActivityCoefficients doctest, on private Chemical objects',
@@ -27,7 +29,7 @@ ASSUMPTIONS = [
     'at a composition where every group-bearing chemical has x=0 the property only fixes the value of the '
     'group-less members (exactly 1); the call must still return',
 ]
-REQUIRED_CELLS = {'quick': ['cls=UNIFAC', 'cls=Dortmund', 'cls=NIST', 'cls=Ideal', 'comp=vertex', 'comp=trace',
+REQUIRED_CELLS = {'quick': ['warm-up', 'cls=UNIFAC', 'cls=Dortmund', 'cls=NIST', 'cls=Ideal', 'comp=vertex', 'comp=trace',
                             'comp=zeros', 'comp=nearvertex', 'gl=1', 'varies:Dortmund', 'varies:NIST', 'varies:UNIFAC'],
                   'thorough': []}
 
@@ -88,7 +90,8 @@ def setup(ctx):
 # case drawing
 # ---------------------------------------------------------------------------
 class Case:
-    def __init__(self, cls, names, T):
+    def __init__(self, cls, names, T, warm_T=None):
+        self.warm_T = warm_T
         self.cls = cls
         self.names = list(names)
         self.n = len(names)
@@ -100,7 +103,14 @@ class Case:
         self.klass = klass
 
     def model(self, ctx, site, chems=None):
-        return ctx.call(site + '.new', self.klass, self.chems if chems is None else chems, region=f'cls={self.cls}')
+        """Create the model object; with a drawn warm-up temperature the SAME object is first evaluated at that
+        temperature and at the equimolar composition (history inside the case: the objects are cached per chemical
+        tuple and keep work buffers; the runner empties the caches before every case)."""
+        G = ctx.call(site + '.new', self.klass, self.chems if chems is None else chems, region=f'cls={self.cls}')
+        if self.warm_T is not None:
+            ctx.cell('warm-up')
+            ctx.call(site + '.warmup', G, np.ones(self.n) / self.n, self.warm_T, region=f'cls={self.cls}')
+        return G
 
     def region(self, x, comp):
         xg0 = int(bool(self.gidx) and all(x[i] == 0 for i in self.gidx))
@@ -127,7 +137,8 @@ def draw_case(ch, ng_min=2, ng_max=6, groupless=(0, 2), classes=('Dortmund', 'UN
     order = ch.permutation('order', len(names))
     names = [names[i] for i in order]
     T = ch.float('T', T_LO, T_HI)
-    return Case(cls, names, T)
+    warm_T = ch.float('warm.T', T_LO, T_HI) if ch.choice('warm', [True, False, True]) else None
+    return Case(cls, names, T, warm_T)
 
 
 def draw_x(ch, n, tag='x', kinds=('interior', 'zeros', 'trace', 'interior', 'vertex', 'nearvertex')):
@@ -169,10 +180,17 @@ def as_vec(g, n):
 
 
 def evaluate(ctx, G, x, T, site, region):
-    g = ctx.call(site, G, np.array(x, float), T, region=region)
-    g = as_vec(g, len(x))
+    raw = ctx.call(site, G, np.array(x, float), T, region=region)
+    g = as_vec(raw, len(x)).copy()
     if not np.isfinite(g).all() or (g <= 0).any():
         ctx.fail(f'{site}|{region}|nonfinite', f'gamma = {g.tolist()} at x = {list(map(float, x))}')
+    # results must not alias internal state: scribble on the returned array and evaluate again
+    if isinstance(raw, np.ndarray) and raw.flags.writeable and raw.size:
+        raw *= 0.5; raw += 7.0
+        again = as_vec(ctx.call(site, G, np.array(x, float), T, region=region), len(x))
+        if not np.array_equal(again, g):
+            ctx.fail(f'{site}|{region}|result-aliased',
+                     f'after modifying the returned array in place a second evaluation gives {again.tolist()} instead of {g.tolist()}')
     return g
 
 
@@ -305,7 +323,7 @@ def prop_permutation(ch, ctx):
     region = case.region(x, comp)
     G = case.model(ctx, 'perm')
     g = evaluate(ctx, G, x, case.T, 'perm.base', region)
-    case2 = Case(case.cls, [case.names[i] for i in p], case.T)
+    case2 = Case(case.cls, [case.names[i] for i in p], case.T, case.warm_T)
     G2 = case2.model(ctx, 'perm')
     g2 = evaluate(ctx, G2, np.array([x[i] for i in p]), case.T, 'perm.permuted', region)
     want = np.array([g[i] for i in p])
@@ -350,7 +368,11 @@ def prop_ideal(ch, ctx):
     arr = np.array(x, float)
     if what == 'Gamma':
         M = ctx.call('ideal.new', eq.IdealActivityCoefficients, chems, region=region)
-        vals = [ctx.call('ideal.call', M, arr, T, region=region), ctx.call('ideal.f', M.f, arr, T, *M.args, region=region)]
+        first = ctx.call('ideal.call', M, arr, T, region=region)
+        vals = [np.array(first, float), ctx.call('ideal.f', M.f, arr, T, *M.args, region=region)]
+        if isinstance(first, np.ndarray) and first.flags.writeable:
+            first *= 3.0          # a caller working in place on the result must not change later results
+            vals.append(ctx.call('ideal.call', M, arr, T, region=region))
     elif what == 'Phi':
         M = ctx.call('ideal.new', eq.IdealFugacityCoefficients, chems, region=region)
         vals = [ctx.call('ideal.call', M, arr, T, P, region=region), ctx.call('ideal.f', M.f, arr, T, P, *M.args, region=region)]
